@@ -2,7 +2,10 @@
 from __future__ import annotations
 
 LANG_EXT = {"C": ".c", "C++": ".cpp", "C#": ".cs", "Java": ".java", "JavaScript": ".js", "TypeScript": ".ts", "Python": ".py"}
-NAMES = ["src", "lib", "app", "core", "util", "a", "b", "pkg", "main", "x.y", "deep", "mod_1", "Über", "日本", "sp ace"]
+NAMES = ["src", "lib", "app", "core", "util", "a", "b", "pkg", "main", "x.y", "deep", "mod_1", "Über", "日本", "sp ace",
+         # names that sort before / after "./" and before / after letters: ordering assumptions about tree keys
+         "-attic", "(legacy)", "$lib", "+plus", "#hash", "!bang", " lead", "&and", "'q", ",c", "%p", "..dots", ".-x", "0num", "9z", "@at", "[br]",
+         "_us", "~tilde", "Zed", "{cur}", "^hat", "`tick", "=eq", ";semi"]
 BOUNDARY = [1, 2, 14, 15, 16, 17, 29, 30, 31, 32, 59, 60, 61, 62, 100, 400]
 PLAIN_CHARS = "abcXYZ019_-."
 HOSTILE_PIECES = ['"', "\\", "\\\\", "\\n", "\n", "\t", "\r", "\x00", "\x01", "\x1f", "\x7f", "/", "'", "{", "}", "[", "]", ":", ",",
